@@ -1,4 +1,5 @@
 def setup(chk):
     chk.add_tu('C03.cpp')
+    chk.add_tu('C01h.cpp')   # heap containers (std::vector / std::basic_string): round trip + reference bytes + GetSize in one harness family, shared by C01/C03/C06
     chk.extra_evidence.update({'bounds_text': 'every core-pool type, every value (all scalars fully symbolic, logical-buffer counts 0..capacity, optional/variant/result alternatives symbolic); writer = PedanticBufferWriter; oracle = independent reference encoder (h/meta.h, written from docs/format.md)',
-      'outside_bounds': ['std::map / std::unordered_map (not encodable: DESIGN 1.4)', 'handles (C15)', 'heap containers are in the thorough tier with counts <= 2']})
+      'outside_bounds': ['std::map / std::unordered_map (not encodable: DESIGN 1.4)', 'handles (C15)', 'heap containers only through h/C01h.cpp: element counts 0..2 round trip, 17/40/70 write side']})
